@@ -325,7 +325,7 @@ func TestProperty(t *testing.T) {
 	plan := harness.Plan{Prop: "C14", Suppress: findings.Suppressor("C14"), Checks: []harness.Check{
 		{Name: "line_endings", Quick: 60000, Thorough: 800000, Gen: doc, Prop: propEndings,
 			Rule: "G1/G2/G3 inputs with every CR removed; LF(HTML(crlf(x))) == LF(HTML(x)) and LF(HTML(cr(x))) == LF(HTML(x)) byte for byte under the default renderer; non-trivial = >= 1 line ending and a code block, hard break, HTML block, multi-line inline construct or container"},
-		{Name: "line_endings_at_limits", Quick: 4000, Thorough: 60000, Gen: func(t *rapid.T) harness.Case {
+		{Name: "line_endings_at_limits", Quick: 1500, Thorough: 60000, Gen: func(t *rapid.T) harness.Case {
 			d := gen.LongLabelDoc().Draw(t, "in")
 			switch rapid.IntRange(0, 2).Draw(t, "container") {
 			case 1:
